@@ -81,4 +81,14 @@ example : OpRoundTrips (fun _ => none) true (.add [.key "a".toList, .idx 0] .nul
   show Pointer.parse _ true (encode [.key "a".toList, .idx 0]) = .ok _
   rfl
 
+/-! ### The open finding C15-KF1, as a kernel-checked counterexample of `build_asdicts` without `OpRoundTrips` -/
+
+/-- A path token that still holds a backslash after escape decoding does not survive printing and re-reading: with a
+    decoder that reads `\u0041` as `A` (as the codec does), the operation whose member name is the six characters
+    `\u0041` prints the path `/\u0041`, and building a patch from that output addresses the member `A`. -/
+theorem build_asdicts_counterexample :
+    let dec : EscDec := fun s => if s = "/\\u0041".toList then some "/A".toList else none
+    build dec true (asdicts [.add [.key "\\u0041".toList] (.int 1)]) = .ok [.add [.key "A".toList] (.int 1)] := by
+  rfl
+
 end JP.Props.C15
